@@ -200,41 +200,59 @@ pub fn nextaddr_check(path: &str, sets_only: bool) {
 /// (registers R0 = rd, R1 = rs) and all 256 x carry for rd = rs.  Prints the maximal edge count.
 pub fn muldiv_term() {
     use crate::scenario::bytecode_of;
+    let regn = [RegisterNumber::R0, RegisterNumber::R1, RegisterNumber::R2, RegisterNumber::R3];
     let mut out = vec![];
     for (name, base) in [("MUL", 0xB0u8), ("DIV", 0xC0u8)].iter() {
         let mut max_edges: u64 = 0;
         let mut runs: u64 = 0;
         let mut nonterm: Vec<Value> = vec![];
-        for same in [false, true].iter() {
-            let op = if *same { *base } else { *base | (1 << 2) }; // rs = R0 (same) or R1, rd = R0
-            let mut tmpl = fresh();
-            tmpl.load(bytecode_of(&[op, 0x01], 16, -1));
-            for a in 0..=255u8 {
-                for b in 0..=255u8 {
-                    if *same && b != a {
-                        continue;
-                    }
-                    for cin in 0..2u8 {
-                        let mut m = tmpl.clone();
-                        m.raw_mut().registers_mut().set(RegisterNumber::R0, a);
-                        if !*same {
-                            m.raw_mut().registers_mut().set(RegisterNumber::R1, b);
+        for rd in 0..4usize {
+            for rs in 0..4usize {
+                let op = *base | ((rs as u8) << 2) | rd as u8;
+                let mut tmpl = fresh();
+                tmpl.load(bytecode_of(&[op, 0x01], 0, 255));
+                // reach the boundary at which `op` is about to execute (PC = 0 still pending increment)
+                for a in 0..=255u8 {
+                    for b in 0..=255u8 {
+                        if rd == rs && b != a {
+                            continue;
                         }
-                        m.raw_mut().registers_mut().set(RegisterNumber::R4, cin);
-                        let mut n: u64 = 0;
-                        while m.state() == State::Running && n < 20000 {
-                            m.raw_mut().trigger_clock_edge();
-                            n += 1;
+                        // PC as an operand cannot take arbitrary values at this point: it is 1 when read
+                        if (rd == 3 && a != 1) || (rs == 3 && b != 1) {
+                            continue;
                         }
-                        runs += 1;
-                        if m.state() != State::Stopped {
-                            if nonterm.len() < 5 {
-                                nonterm.push(json!({"op": name, "a": a, "b": b, "cin": cin, "edges": n,
-                                    "state": crate::proj::state_name(m.state())}));
+                        for cin in 0..2u8 {
+                            let mut m = tmpl.clone();
+                            if rd != 3 {
+                                m.raw_mut().registers_mut().set(regn[rd], a);
                             }
-                        }
-                        if n > max_edges {
-                            max_edges = n;
+                            if rs != 3 && rs != rd {
+                                m.raw_mut().registers_mut().set(regn[rs], b);
+                            }
+                            m.raw_mut().registers_mut().set(RegisterNumber::R4, cin);
+                            let mut n: u64 = 0;
+                            let mut boundaries = 0;
+                            let mut left = false;
+                            // terminates = returns to an instruction boundary (twice: own fetch, next fetch) or halts
+                            while m.state() == State::Running && n < 20000 && boundaries < 2 {
+                                m.raw_mut().trigger_clock_edge();
+                                n += 1;
+                                if !m.is_instruction_done() {
+                                    left = true;
+                                } else if left {
+                                    boundaries += 1;
+                                    left = false;
+                                }
+                            }
+                            runs += 1;
+                            if n >= 20000 {
+                                if nonterm.len() < 5 {
+                                    nonterm.push(json!({"op": name, "opcode": op, "rd": rd, "rs": rs, "a": a, "b": b, "cin": cin, "edges": n}));
+                                }
+                            }
+                            if n > max_edges {
+                                max_edges = n;
+                            }
                         }
                     }
                 }
@@ -243,4 +261,43 @@ pub fn muldiv_term() {
         out.push(json!({"op": name, "runs": runs, "max_edges": max_edges, "nonterminating": nonterm}));
     }
     println!("{}", json!(out));
+}
+
+/// Reference: [512][256] ir' + 256 * state code after ONE real clock edge from
+/// (maddr, IR = 85, last bus byte b), everything else as after reset.
+pub fn irstep_check(path: &str) {
+    let r = load_json(path);
+    let tab = r.as_array().expect("array");
+    let mut rows: u64 = 0;
+    let mut mism: u64 = 0;
+    let mut first: Vec<Value> = vec![];
+    for maddr in 0..512usize {
+        let row = tab[maddr].as_array().expect("row");
+        for b in 0..256usize {
+            let mut m = fresh();
+            let mut raw = base_raw();
+            raw.maddr = maddr;
+            raw.ir = 85;
+            raw.last_bus_read = b as u8;
+            m.raw_mut().verif_restore(&raw);
+            let got = match catch_unwind(AssertUnwindSafe(|| {
+                m.raw_mut().trigger_clock_edge();
+                let s = m.verif_snapshot();
+                s.ir as u64 + 256 * match m.state() { State::Running => 0, State::Stopped => 1, State::ErrorStopped => 2 }
+            })) {
+                Ok(g) => g,
+                Err(_) => 1 << 20,
+            };
+            let exp = row[b].as_u64().unwrap();
+            rows += 1;
+            if got != exp {
+                mism += 1;
+                if first.len() < 10 {
+                    first.push(json!({"maddr": maddr, "bus_byte": b, "spec_ir": exp % 256, "spec_state": exp / 256,
+                        "impl_ir": got % 256, "impl_state": got / 256}));
+                }
+            }
+        }
+    }
+    println!("{}", json!({"rows": rows, "mismatches": mism, "first": first}));
 }
